@@ -72,6 +72,13 @@ func init() {
 		"Definition createTask_option (nodeKey : key) (optMap : optmap) : list entry := t_option (create_task nodeKey optMap).\n"+
 		"Definition restoreTask_option (skip : bool) (key : key) (optMap : optmap) : list entry :=\n  t_option (restore_task false key optMap (Ckpt [] [])).\n"+
 		"Definition option_flow : list (string * bool) := Model.OptionsSitesTable.option_flow.\n")
+	register("c16validate", c16ExtractValidate)
+	registerFallback("c16validate", "OptValidate.v", "(* Gen/OptValidate.v — translator tie UNAVAILABLE: tools/go2v (extractor \"c16validate\") did not recognise the\n"+
+		"   shape of compose/graph_run.go runner.extractOption / the checkOption closure of toComposableRunnable. *)\n"+
+		c16Imports+"\nDefinition tie_available : bool := false.\n\n"+
+		"Definition checkOption (rec plain : list copt -> res optmap) (opts : list entry) : res unit :=\n  do tos <- convert_opts opts; do _ <- rec tos; Ok tt.\n"+
+		"Definition runnerExtractOption (chk : node -> list entry -> res unit) (nodes : graph) (opts : list copt) : res optmap :=\n"+
+		"  do m <- extract_option nodes opts [];\n  do _ <- res_mapM (fun nd => chk nd (om_get (n_key nd) m)) nodes;\n  Ok m.\n")
 	register("c16designate", c16ExtractDesignate)
 	registerFallback("c16designate", "OptDesignate.v", "(* Gen/OptDesignate.v — translator tie UNAVAILABLE: tools/go2v (extractor \"c16designate\") did not recognise the\n"+
 		"   shape of compose/graph_call_options.go:Option.DesignateNodeWithPath; the model's own function is re-exported. *)\n"+
@@ -105,6 +112,7 @@ type c16Tr struct {
 	skipped []string
 	errs    map[string]string // message prefix -> Gallina error code
 	hasCopy bool              // deepCopy has been generated (callable)
+	callee  string            // the function whose result initialises the accumulator (runner.extractOption: extractOption)
 	ctxArg  string
 }
 
@@ -159,6 +167,9 @@ func (t *c16Tr) expr(root *c16Root, e ast.Expr) (c16Expr, error) {
 			return c16Expr{s: x.Value, ty: "nat"}, nil
 		}
 	case *ast.SelectorExpr:
+		if v, ok := t.vars[c16Str(x)]; ok { // a field of the receiver that is a parameter of the translation
+			return c16Expr{s: v.coq, ty: v.ty}, nil
+		}
 		b, err := t.expr(root, x.X)
 		if err != nil {
 			return c16Expr{}, err
@@ -177,6 +188,8 @@ func (t *c16Tr) expr(root *c16Root, e ast.Expr) (c16Expr, error) {
 			return c16Expr{b.s, "action", b.binds}, nil
 		case "action.optionType":
 			return c16Expr{"(option_type " + b.s + ")", "rtype", b.binds}, nil
+		case "action.checkOption":
+			return c16Expr{b.s, "checkfn", b.binds}, nil
 		}
 		return c16Expr{}, t.errf(e, "field %s of a value of kind %s is outside the translated fragment", f, b.ty)
 	case *ast.IndexExpr:
@@ -307,10 +320,15 @@ func (t *c16Tr) atom(root *c16Root, e ast.Expr) (c16Expr, error) {
 		if err != nil {
 			return c16Expr{}, err
 		}
-		if a.ty != "rtype" {
-			return c16Expr{}, t.errf(e, "nil test of a value of kind %s", a.ty)
+		switch a.ty {
+		case "rtype":
+			return wrap("(rt_nil "+a.s+")", a.binds)
+		case "action": // c.action == nil
+			return wrap("(action_nil "+a.s+")", a.binds)
+		case "checkfn": // c.action.checkOption == nil
+			return wrap("(check_nil "+a.s+")", a.binds)
 		}
-		return wrap("(rt_nil "+a.s+")", a.binds)
+		return c16Expr{}, t.errf(e, "nil test of a value of kind %s", a.ty)
 	}
 	a, err := t.expr(root, l)
 	if err != nil {
@@ -611,6 +629,34 @@ func (t *c16Tr) stmts(root *c16Root, l []ast.Stmt, k string, ind string) (string
 			root.skipped = append(root.skipped, c16Str(x.Lhs[0])+" "+x.Tok.String()+" …")
 			return t.stmts(root, rest, k, ind)
 		}
+		if len(x.Lhs) == 2 && len(x.Rhs) == 1 && x.Tok == token.DEFINE && c16Str(x.Lhs[0]) == t.acc && !t.accInit && t.accTy == "optmap" && t.callee != "" {
+			// acc, err := extractOption(nodes, opts...); if err != nil { return nil, err }
+			errName := c16Str(x.Lhs[1])
+			call, ok := x.Rhs[0].(*ast.CallExpr)
+			if !ok || c16Str(call.Fun) != t.callee || len(call.Args) != 2 || !call.Ellipsis.IsValid() {
+				return "", t.errf(x, "the option map is not the result of %s(nodes, opts...)", t.callee)
+			}
+			a0, err := t.expr(root, call.Args[0])
+			if err != nil {
+				return "", err
+			}
+			a1, err := t.expr(root, call.Args[1])
+			if err != nil {
+				return "", err
+			}
+			if a0.ty != "nodes" || a1.ty != "opts" || len(a0.binds)+len(a1.binds) > 0 {
+				return "", t.errf(x, "%s called with a %s and a %s", t.callee, a0.ty, a1.ty)
+			}
+			if len(rest) == 0 || !c16IsErrReturn(rest[0], errName) {
+				return "", t.errf(x, "the error of %s is not returned at once", t.callee)
+			}
+			t.accInit = true
+			body, err := t.stmts(root, rest[1:], k, in2)
+			if err != nil {
+				return "", err
+			}
+			return "match " + t.callee + " " + a0.s + " " + a1.s + " with\n" + ind + "| Err e => Fail e\n" + ind + "| Panic => Crash\n" + ind + "| Ok " + accV + " =>\n" + in2 + body + "\n" + ind + "end", nil
+		}
 		if len(x.Lhs) != 1 || len(x.Rhs) != 1 {
 			return "", t.errf(x, "assignment with %d left-hand sides", len(x.Lhs))
 		}
@@ -781,6 +827,37 @@ func (t *c16Tr) stmts(root *c16Root, l []ast.Stmt, k string, ind string) (string
 			root.skipped = append(root.skipped, "if "+c16Str(x.Cond)+" { … }")
 			return t.stmts(root, rest, k, ind)
 		}
+		// if err = c.action.checkOption(acc[k]...); err != nil { return nil, <err, wrapped or not> }
+		if as, ok := x.Init.(*ast.AssignStmt); ok && len(as.Lhs) == 1 && len(as.Rhs) == 1 && x.Else == nil {
+			if call, ok := as.Rhs[0].(*ast.CallExpr); ok && call.Ellipsis.IsValid() && len(call.Args) == 1 {
+				errName := c16Str(as.Lhs[0])
+				if bin, ok := x.Cond.(*ast.BinaryExpr); ok && bin.Op == token.NEQ && c16Str(bin.X) == errName && c16IsNil(bin.Y) {
+					fn, err := t.expr(root, call.Fun)
+					if err != nil {
+						return "", err
+					}
+					ix, ok := call.Args[0].(*ast.IndexExpr)
+					if fn.ty != "checkfn" || !ok || c16Str(ix.X) != t.acc || len(fn.binds) > 0 {
+						return "", t.errf(x, "call %s outside the translated fragment", c16Str(call))
+					}
+					key, err := t.expr(root, ix.Index)
+					if err != nil {
+						return "", err
+					}
+					if key.ty != "key" || len(key.binds) > 0 {
+						return "", t.errf(x, "%s indexed by a value of kind %s", t.acc, key.ty)
+					}
+					if len(x.Body.List) != 1 || !c16IsErrWrapReturn(x.Body.List[0], errName) {
+						return "", t.errf(x, "the error of the nested check is not returned")
+					}
+					after, err := t.stmts(root, rest, k, in2)
+					if err != nil {
+						return "", err
+					}
+					return "match chk " + fn.s + " (om_get " + key.s + " " + accV + ") with\n" + ind + "| Err e => Fail e\n" + ind + "| Panic => Crash\n" + ind + "| Ok _ =>\n" + in2 + after + "\n" + ind + "end", nil
+				}
+			}
+		}
 		// if x, ok = m[key]; !ok { …no fall through… }
 		if x.Init != nil {
 			as, ok := x.Init.(*ast.AssignStmt)
@@ -871,6 +948,37 @@ func c16TopFunc(f *ast.File, name string) *ast.FuncDecl {
 		}
 	}
 	return nil
+}
+
+// if err != nil { return nil, err }
+func c16IsErrReturn(s ast.Stmt, errName string) bool {
+	ifs, ok := s.(*ast.IfStmt)
+	if !ok || ifs.Init != nil || ifs.Else != nil || len(ifs.Body.List) != 1 {
+		return false
+	}
+	bin, ok := ifs.Cond.(*ast.BinaryExpr)
+	if !ok || bin.Op != token.NEQ || c16Str(bin.X) != errName || !c16IsNil(bin.Y) {
+		return false
+	}
+	ret, ok := ifs.Body.List[0].(*ast.ReturnStmt)
+	return ok && len(ret.Results) == 2 && c16IsNil(ret.Results[0]) && c16Str(ret.Results[1]) == errName
+}
+
+// return nil, err   |   return nil, fmt.Errorf("… %w", …, err)
+func c16IsErrWrapReturn(s ast.Stmt, errName string) bool {
+	ret, ok := s.(*ast.ReturnStmt)
+	if !ok || len(ret.Results) != 2 || !c16IsNil(ret.Results[0]) {
+		return false
+	}
+	if c16Str(ret.Results[1]) == errName {
+		return true
+	}
+	call, ok := ret.Results[1].(*ast.CallExpr)
+	if !ok || c16Str(call.Fun) != "fmt.Errorf" || len(call.Args) < 2 || c16Str(call.Args[len(call.Args)-1]) != errName {
+		return false
+	}
+	lit, ok := call.Args[0].(*ast.BasicLit)
+	return ok && strings.Contains(lit.Value, "%w")
 }
 
 func c16Method(f *ast.File, recv, name string) *ast.FuncDecl {
@@ -1504,10 +1612,24 @@ func c16ExtractTasks(repo string) (string, string, error) {
 	})
 	flows = append(flows, flow{"run: there is no other extraction", others == 1})
 	flows = append(flows, flow{"run: neither the option map nor the option list is assigned again", reassigned == 1})
-	// (3) every task construction of run gets the option map
-	n, with := 0, 0
+	// (3) every construction of tasks that run submits gets the option map (tasks that are only
+	// stored in a checkpoint are rebuilt by restoreTasks with the options of the resuming call)
+	submitted := ""
 	ast.Inspect(run.Body, func(x ast.Node) bool {
 		if call, ok := x.(*ast.CallExpr); ok {
+			if sel, ok := call.Fun.(*ast.SelectorExpr); ok && sel.Sel.Name == "submit" && len(call.Args) == 1 {
+				submitted = c16Str(call.Args[0])
+			}
+		}
+		return true
+	})
+	n, with := 0, 0
+	ast.Inspect(run.Body, func(x ast.Node) bool {
+		as, ok := x.(*ast.AssignStmt)
+		if !ok || len(as.Rhs) != 1 || len(as.Lhs) == 0 || c16Str(as.Lhs[0]) != submitted {
+			return true
+		}
+		if call, ok := as.Rhs[0].(*ast.CallExpr); ok {
 			if sel, ok := call.Fun.(*ast.SelectorExpr); ok && (sel.Sel.Name == "restoreTasks" || sel.Sel.Name == "calculateNextTasks" || sel.Sel.Name == "createTasks") {
 				n++
 				if c16LastArgIs(call, optMap) {
@@ -1517,7 +1639,7 @@ func c16ExtractTasks(repo string) (string, string, error) {
 		}
 		return true
 	})
-	flows = append(flows, flow{"run: every restoreTasks / calculateNextTasks is handed the option map", n >= 3 && n == with})
+	flows = append(flows, flow{"run: every restoreTasks / calculateNextTasks whose tasks are submitted is handed the option map", submitted != "" && n >= 3 && n == with})
 	// (4) calculateNextTasks hands its option map on to createTasks
 	cn := c16Method(f, "*runner", "calculateNextTasks")
 	okCn := false
@@ -1655,3 +1777,94 @@ func c16ExtractTasks(repo string) (string, string, error) {
 }
 
 func c16CoqStr(s string) string { return `"` + strings.ReplaceAll(s, `"`, `""`) + `"%string` }
+
+// ---------------------------------------------------------------------------------------------- validation
+
+// runner.extractOption (distribution + validation of what is handed to every nested graph), statement by
+// statement; the checkOption closure that toComposableRunnable installs for a graph used as a node:
+//   tos, err := convertOption[Option](opts...); if err != nil { return err }; _, err = r.extractOption(tos...); return err
+func c16ExtractValidate(repo string) (string, string, error) {
+	fset := token.NewFileSet()
+	f, err := c16ParseGo(fset, repo, "compose", "graph_run.go")
+	if err != nil {
+		return "", "", err
+	}
+	fn := c16Method(f, "*runner", "extractOption")
+	if fn == nil || fn.Body == nil || len(fn.Recv.List[0].Names) != 1 {
+		return "", "", fmt.Errorf("method runner.extractOption not found")
+	}
+	recv := fn.Recv.List[0].Names[0].Name
+	if got := strings.Join(c16Params(fn), ", "); got != "opts ...Option" {
+		return "", "", fmt.Errorf("runner.extractOption: parameters (%s)", got)
+	}
+	root := &c16Root{}
+	t := &c16Tr{fn: "runner.extractOption", acc: "optMap", accTy: "optmap", idx: map[string]string{}, ignore: map[string]bool{}, callee: "extractOption",
+		vars: map[string]c16Var{recv + ".chanSubscribeTo": {"nodes", "nodes"}, "opts": {"opts", "opts"}, "optMap": {"optMap", "optmap"}},
+		errs: map[string]string{}}
+	body, err := t.stmts(root, fn.Body.List, "Next", "    ")
+	if err != nil {
+		return "", "", err
+	}
+	if !t.accInit {
+		return "", "", fmt.Errorf("runner.extractOption: the option map is never computed")
+	}
+	// the closure
+	tc := c16Method(f, "*runner", "toComposableRunnable")
+	if tc == nil || tc.Body == nil || len(tc.Recv.List[0].Names) != 1 {
+		return "", "", fmt.Errorf("method runner.toComposableRunnable not found")
+	}
+	trecv := tc.Recv.List[0].Names[0].Name
+	var lit *ast.FuncLit
+	ast.Inspect(tc.Body, func(n ast.Node) bool {
+		if kv, ok := n.(*ast.KeyValueExpr); ok && c16Str(kv.Key) == "checkOption" {
+			if fl, ok := kv.Value.(*ast.FuncLit); ok {
+				lit = fl
+			}
+		}
+		return true
+	})
+	if lit == nil || len(lit.Type.Params.List) != 1 || len(lit.Type.Params.List[0].Names) != 1 || len(lit.Body.List) != 4 {
+		return "", "", fmt.Errorf("toComposableRunnable: the checkOption closure has another shape")
+	}
+	po := lit.Type.Params.List[0].Names[0].Name
+	s0, ok0 := lit.Body.List[0].(*ast.AssignStmt)
+	s1, ok1 := lit.Body.List[1].(*ast.IfStmt)
+	s2, ok2 := lit.Body.List[2].(*ast.AssignStmt)
+	s3, ok3 := lit.Body.List[3].(*ast.ReturnStmt)
+	if !ok0 || !ok1 || !ok2 || !ok3 || len(s0.Lhs) != 2 || len(s0.Rhs) != 1 || len(s2.Lhs) != 2 || len(s2.Rhs) != 1 || len(s3.Results) != 1 {
+		return "", "", fmt.Errorf("toComposableRunnable: the checkOption closure has another shape")
+	}
+	tos, e := c16Str(s0.Lhs[0]), c16Str(s0.Lhs[1])
+	if c16Str(s0.Rhs[0]) != "convertOption[Option]("+po+"...)" {
+		return "", "", fmt.Errorf("checkOption: %s", c16Str(s0.Rhs[0]))
+	}
+	ret, okr := s1.Body.List[0].(*ast.ReturnStmt)
+	bin, okb := s1.Cond.(*ast.BinaryExpr)
+	if s1.Init != nil || s1.Else != nil || len(s1.Body.List) != 1 || !okr || !okb || bin.Op != token.NEQ || c16Str(bin.X) != e || !c16IsNil(bin.Y) || len(ret.Results) != 1 || c16Str(ret.Results[0]) != e {
+		return "", "", fmt.Errorf("checkOption: the conversion error is not returned at once")
+	}
+	// the extraction the closure runs: the runner's own (distribution + validation of the next level: rec) or
+	// the plain one-level extractOption over the runner's nodes (plain)
+	which := ""
+	switch c16Str(s2.Rhs[0]) {
+	case trecv + ".extractOption(" + tos + "...)":
+		which = "rec"
+	case "extractOption(" + trecv + ".chanSubscribeTo, " + tos + "...)":
+		which = "plain"
+	}
+	if c16Str(s2.Lhs[0]) != "_" || c16Str(s2.Lhs[1]) != e || which == "" || c16Str(s3.Results[0]) != e {
+		return "", "", fmt.Errorf("checkOption: %s / return %s", c16Str(s2.Rhs[0]), c16Str(s3.Results[0]))
+	}
+	var b strings.Builder
+	b.WriteString("(* Gen/OptValidate.v — GENERATED by tools/go2v (extractor \"c16validate\") from compose/graph_run.go\n")
+	b.WriteString("   (method runner.extractOption, translated statement by statement; the checkOption closure of\n   runner.toComposableRunnable). Do not edit. *)\n")
+	b.WriteString(c16Imports + "From Eino Require Import Gen.OptExtract.\n\nDefinition tie_available : bool := true.\n\n")
+	b.WriteString("(* checkOption: func(" + po + " ...any) error — [rec] is the runner's own extractOption (this function, one level\n   further down), [plain] the one-level extractOption over the runner's nodes *)\n")
+	b.WriteString("Definition checkOption (rec plain : list copt -> res optmap) (" + po + " : list entry) : res unit :=\n")
+	b.WriteString("  match convert_opts " + po + " with\n  | Err " + e + " => Err " + e + "\n  | Panic => Panic\n  | Ok " + tos + " =>\n")
+	b.WriteString("    match " + which + " " + tos + " with\n    | Err " + e + " => Err " + e + "\n    | Panic => Panic\n    | Ok _ => Ok tt\n    end\n  end.\n\n")
+	b.WriteString(c16SkippedComment(root))
+	b.WriteString("(* [chk c es] = c.action.checkOption(es...) *)\n")
+	b.WriteString("Definition runnerExtractOption (chk : node -> list entry -> res unit) (nodes : graph) (opts : list copt) : res optmap :=\n  go_result (\n    " + body + ").\n")
+	return "OptValidate.v", b.String(), nil
+}
